@@ -85,7 +85,7 @@ func (o Out) ResourceName() string { return o.Key }
 
 // Atom kinds of a fetch filter.  Lean: FAtom.
 type Atom struct {
-	Kind string // key selects selectsNE label nsIndex generic
+	Kind string // key selects selectsNE label nsIndex valIndex generic
 	N    int
 }
 
@@ -129,7 +129,7 @@ func parseTransform(t string) (Transform, bool) {
 		var as []Atom
 		for _, a := range splitNE(f, "+") {
 			switch {
-			case a == "key" || a == "selects" || a == "selectsNE" || a == "label" || a == "nsIndex":
+			case a == "key" || a == "selects" || a == "selectsNE" || a == "label" || a == "nsIndex" || a == "valIndex":
 				as = append(as, Atom{Kind: a})
 			case strings.HasPrefix(a, "g"):
 				if n, err := strconv.Atoi(a[1:]); err == nil {
